@@ -127,7 +127,11 @@ func (c *Coordinate) DistanceTo(other *Coordinate) time.Duration {
 	}
 
 	dist := c.rawDistanceTo(other)
-	adjustedDist := dist + c.Adjustment + other.Adjustment
+	// The two adjustments (and, in rawDistanceTo, the two heights) are summed
+	// first so that the result does not depend on which of the two coordinates
+	// is the receiver: floating point addition is commutative but not
+	// associative, and near the guard below a different rounding flips it.
+	adjustedDist := dist + (c.Adjustment + other.Adjustment)
 	if adjustedDist > 0.0 {
 		dist = adjustedDist
 	}
@@ -138,7 +142,7 @@ func (c *Coordinate) DistanceTo(other *Coordinate) time.Duration {
 // other coordinate in seconds, not including adjustments. This assumes the
 // dimensions have already been checked to be compatible.
 func (c *Coordinate) rawDistanceTo(other *Coordinate) float64 {
-	return magnitude(diff(c.Vec, other.Vec)) + c.Height + other.Height
+	return magnitude(diff(c.Vec, other.Vec)) + (c.Height + other.Height)
 }
 
 // add returns the sum of vec1 and vec2. This assumes the dimensions have
